@@ -10,18 +10,34 @@ func (t *T) GetType() int {
 }
 
 func (t *T) GetVal() any {
+	if t == nil {
+		return nil
+	}
+
 	return t.val
 }
 
 func (t *T) GetDefineArgs() []string {
+	if t == nil {
+		return nil
+	}
+
 	return t.defineArgs
 }
 
 func (t *T) GetMethodName() string {
+	if t == nil {
+		return ""
+	}
+
 	return t.method
 }
 
 func (t *T) GetObjectClass() string {
+	if t == nil {
+		return ""
+	}
+
 	return t.objectClass
 }
 
@@ -31,10 +47,18 @@ func (t *T) SetObjectClass(class string) {
 }
 
 func (t *T) GetKey() string {
+	if t == nil {
+		return ""
+	}
+
 	return t.key
 }
 
 func (t *T) GetFrame() string {
+	if t == nil {
+		return ""
+	}
+
 	return t.frame
 }
 
@@ -43,10 +67,18 @@ func (t *T) SetFrame(frame string) {
 }
 
 func (t *T) GetRemoveSuffixKey() string {
+	if t == nil || len(t.key) == 0 {
+		return ""
+	}
+
 	return t.key[:len(t.key)-1]
 }
 
 func (t *T) GetRemovePrefixKey() string {
+	if t == nil || len(t.key) == 0 {
+		return ""
+	}
+
 	return t.key[1:]
 }
 
@@ -96,11 +128,19 @@ func (t *T) SetBeforeEvaluateCode(code string) {
 }
 
 func (t *T) GetBeforeEvaluateCode() string {
+	if t == nil {
+		return ""
+	}
+
 	return t.beforeEvaluateCode
 }
 
 // Variant and union type accessors
 func (t *T) GetVariants() []T {
+	if t == nil {
+		return nil
+	}
+
 	return t.variants
 }
 
